@@ -471,3 +471,111 @@ def rule_m4(ctx):
     if n_inst == 0:
         r.note("M4", loc(f, f.node), FN, "no self-referential channel "
                "update in an innermost loop; nothing to check")
+
+
+def rule_memo_own1(ctx):
+    r = ctx.r
+    r.rule("MEMO1", "what _automaton_accepted reads from its memo -- "
+                    "`precomputed[..]` and the result of the memoised "
+                    "self-call -- belongs to the memo and is shared with "
+                    "every later hit: it is never the target of an in-place "
+                    "operation (`out=`, augmented assignment, item store, "
+                    ".sort() / .fill()). np.matmul(e, matrices, out=matrices) "
+                    "overwrites the cached block for (length-1, neighbour): "
+                    "the second edge into that neighbour, or a reused memo, "
+                    "multiplies an already multiplied block")
+    f = ctx.p.get_function(REP, FN)
+    r.analysed(f)
+    memo_param = "precomputed" if "precomputed" in f.params else None
+    owned = set()
+    for st in ast.walk(f.node):
+        tg = None
+        if isinstance(st, ast.Assign) and len(st.targets) == 1:
+            tg = st.targets[0]
+        if tg is None:
+            continue
+        v = st.value
+        from_memo = False
+        for c in ast.walk(v):
+            if isinstance(c, ast.Call) and isinstance(c.func, ast.Attribute) \
+                    and dotted(c.func.value) == "self" \
+                    and c.func.attr == f.name:
+                from_memo = True
+            if memo_param and isinstance(c, ast.Subscript) \
+                    and dotted(c.value) == memo_param \
+                    and isinstance(c.ctx, ast.Load):
+                from_memo = True
+        if not from_memo:
+            continue
+        # only a bare hand-over keeps the memo's objects: `x = call(..)`,
+        # `a, b = call(..)`; an expression built from it is a new array
+        if not (isinstance(v, (ast.Call, ast.Subscript))):
+            continue
+        for e in ([tg] if isinstance(tg, ast.Name) else getattr(tg, "elts",
+                                                               [])):
+            if isinstance(e, ast.Name):
+                owned.add(e.id)
+    # hand-overs: `matrices, words = result`, `matrices = result`
+    grew = True
+    while grew:
+        grew = False
+        for st in ast.walk(f.node):
+            if isinstance(st, ast.Assign) and len(st.targets) == 1 \
+                    and isinstance(st.value, ast.Name) \
+                    and st.value.id in owned:
+                tg = st.targets[0]
+                for e in ([tg] if isinstance(tg, ast.Name)
+                          else getattr(tg, "elts", [])):
+                    if isinstance(e, ast.Name) and e.id not in owned:
+                        owned.add(e.id)
+                        grew = True
+    if not owned:
+        r.note("MEMO1", loc(f, f.node), FN,
+               "no local is bound to a memo entry / memoised result "
+               "(not judged)")
+        return
+    # a rebinding `x = <new array from x>` ends the ownership at that point;
+    # an in-place operation anywhere on an owned name is judged by position
+    # in the loop body: the first write decides
+    bad = []
+    for st in ast.walk(f.node):
+        if isinstance(st, ast.AugAssign):
+            b = st.target
+            while isinstance(b, ast.Subscript):
+                b = b.value
+            if isinstance(b, ast.Name) and b.id in owned:
+                bad.append(st)
+        if isinstance(st, ast.Assign):
+            for t in st.targets:
+                if isinstance(t, ast.Subscript):
+                    b = t
+                    while isinstance(b, ast.Subscript):
+                        b = b.value
+                    if isinstance(b, ast.Name) and b.id in owned:
+                        bad.append(st)
+        if isinstance(st, ast.Call):
+            for k in st.keywords:
+                if k.arg == "out" and isinstance(k.value, ast.Name) \
+                        and k.value.id in owned:
+                    bad.append(st)
+            if isinstance(st.func, ast.Attribute) and st.func.attr in (
+                    "sort", "fill", "resize", "put", "itemset") \
+                    and isinstance(st.func.value, ast.Name) \
+                    and st.func.value.id in owned:
+                bad.append(st)
+    inst = "_automaton_accepted:memo-ownership"
+    if not bad:
+        r.ok("MEMO1", inst, loc(f, f.node), ", ".join(sorted(owned)),
+             "no in-place operation on a memo-owned value")
+    else:
+        st = bad[0]
+        r.violation(
+            "MEMO1", f"{f.fq}|inplace", loc(f, st), dotted(st)[:100],
+            f"`{dotted(st)[:70]}` writes into a value that is an entry of "
+            "the memo (the result of the memoised self-call): the block "
+            "cached for (length - 1, neighbour) is overwritten with the "
+            "product for ONE edge; the next edge into that neighbour, and "
+            "every later call with the same memo, starts from the "
+            "overwritten block -- the returned matrices are no longer the "
+            "images of the returned words (free automaton: from length 3)",
+            instance=inst)
